@@ -162,6 +162,8 @@ def items(tier):
                 out.append((lab, "none", ("fwd", "rev"), 2))
             if scalar:
                 out.append((lab, "order2-only", ("rev",), 2))
+                out.append((lab, "order2-only", ("fwd",), 2))
+                out.append((lab, "none", ("fwd",), 2))
     return out
 
 
